@@ -151,4 +151,45 @@ theorem tick_consumes (c : C15.Cfg) (s : C15.St) (m : Ctl) (rest : List Ctl) (hf
     simp only [cv, Prod.mk.injEq] at this
     rw [this.1]; exact hp.1
 
+theorem roundMu_le_of {σ σ' : Comp} (h1 : σ'.robPh = σ.robPh)
+    (h2 : σ'.sys.rob.ctlIn.length ≤ σ.sys.rob.ctlIn.length) : roundMu σ' ≤ roundMu σ := by
+  unfold roundMu
+  rw [h1]
+  rcases ha : σ.sys.rob.ctlIn with _ | ⟨a, l⟩
+  · rw [ha] at h2
+    have : σ'.sys.rob.ctlIn = [] := List.length_eq_zero_iff.mp (Nat.le_zero.mp h2)
+    rw [this]; exact Nat.le_refl _
+  · rcases σ'.sys.rob.ctlIn with _ | ⟨b, l'⟩ <;> split <;> simp
+
+theorem roundMu_zero {σ : Comp} (h : roundMu σ = 0) : σ.robPh = 0 := by
+  unfold roundMu at h
+  split at h
+  · assumption
+  · split at h <;> omega
+  · omega
+  · split at h <;> omega
+  · omega
+
+theorem legalRunB_append (c : Cfg) (a b : List CEv) (σ : Comp) :
+    legalRunB c σ (a ++ b) = true → legalRunB c σ a = true ∧ legalRunB c (a.foldl (cstep c) σ) b = true := by
+  induction a generalizing σ with
+  | nil => intro h; exact ⟨rfl, h⟩
+  | cons e es ih =>
+    intro h
+    simp only [List.cons_append, legalRunB, Bool.and_eq_true] at h
+    have := ih (cstep c σ e) h.2
+    simp only [legalRunB, Bool.and_eq_true, List.foldl_cons]
+    exact ⟨⟨h.1, this.1⟩, this.2⟩
+
+theorem roundMu_le_six (σ : Comp) : roundMu σ ≤ 6 := by
+  unfold roundMu; repeat' split
+  all_goals omega
+
+theorem roundMu_pos {σ : Comp} (h : σ.robPh ≠ 0) : 1 ≤ roundMu σ := by
+  unfold roundMu; repeat' split
+  all_goals first | omega | contradiction
+
+theorem roundMu_of_zero {σ : Comp} (h : σ.robPh = 0) : roundMu σ = 0 := by
+  simp [roundMu, h]
+
 end C15.Cu
